@@ -278,6 +278,44 @@ theorem flag_complex_closed (n : Nat) (adj : Nat → Nat → Bool) (maxOrder : N
   have := hts.length_le
   exact ⟨by omega, ⟨h2.1.sublist hts, fun x hx => h2.2 x (hts.subset hx)⟩, h3.sublist hts⟩
 
+/-- `flag_complex(G, max_order, ps)` / `flag_complex_d2(G, p2)`, whatever cliques win their coin flips: the complex is
+    duplicate-free, contains every graph edge and every promoted clique, every simplex is a clique of `G`, and it is
+    downward closed; when nothing is promoted (all `p = 0`) it is the graph itself -/
+theorem flag_promoted_spec (n : Nat) (adj : Nat → Nat → Bool) (maxOrder : Nat) (picked K : List (List Nat))
+    (h : flagPromoted n adj maxOrder picked = some K) :
+    K.Nodup ∧ (∀ e ∈ flagComplex n adj 1, e ∈ K) ∧ (∀ c ∈ picked, c ∈ K) ∧
+    (∀ s ∈ K, 2 ≤ s.length ∧ (s.Pairwise (· < ·) ∧ ∀ x ∈ s, x < n) ∧ s.Pairwise (fun a b => adj a b = true)) ∧
+    (∀ s ∈ K, ∀ t, t.Sublist s → 2 ≤ t.length → t ∈ K) ∧
+    (picked = [] → ∀ s, s ∈ K ↔ s ∈ flagComplex n adj 1) := by
+  unfold flagPromoted at h
+  split at h
+  · rename_i hp
+    simp at h; subst h
+    simp only [List.all_eq_true, Bool.and_eq_true, decide_eq_true_eq] at hp
+    have memK : ∀ s, s ∈ dedup (flagComplex n adj 1 ++ picked.flatMap faces) ↔
+        s ∈ flagComplex n adj 1 ∨ ∃ c ∈ picked, s.Sublist c ∧ 2 ≤ s.length := by
+      intro s; simp [mem_dedup, List.mem_flatMap, mem_faces]
+    have clique : ∀ s, (s ∈ flagComplex n adj 1 ∨ ∃ c ∈ picked, s.Sublist c ∧ 2 ≤ s.length) →
+        2 ≤ s.length ∧ (s.Pairwise (· < ·) ∧ ∀ x ∈ s, x < n) ∧ s.Pairwise (fun a b => adj a b = true) := by
+      rintro s (hs | ⟨c, hc, hsub, hl⟩)
+      · obtain ⟨a, b, c⟩ := (flag_complex_spec n adj 1 s).1.mp hs
+        exact ⟨a.1, b, c⟩
+      · obtain ⟨a, b, c'⟩ := (flag_complex_spec n adj maxOrder s).1.mp (flag_complex_closed n adj maxOrder c s (hp c hc).1 hsub hl)
+        exact ⟨a.1, b, c'⟩
+    refine ⟨nodup_dedup _, ?_, ?_, ?_, ?_, ?_⟩
+    · intro e he; rw [memK]; exact Or.inl he
+    · intro c hc; rw [memK]; exact Or.inr ⟨c, hc, List.Sublist.refl c, by have := (hp c hc).2; omega⟩
+    · intro s hs; exact clique s ((memK s).mp hs)
+    · intro s hs t hts hl
+      rw [memK] at hs ⊢
+      rcases hs with hs | ⟨c, hc, hsub, -⟩
+      · exact Or.inl (flag_complex_closed n adj 1 s t hs hts hl)
+      · exact Or.inr ⟨c, hc, hts.trans hsub, hl⟩
+    · intro hnil s
+      subst hnil
+      rw [memK]; simp
+  · simp at h
+
 /-! ### closed-form generators -/
 
 /-- `ring_lattice(n, d, k, l)`: `n·(k//2)` edges, all members in `range n`; when no wrap-around collision is possible
@@ -300,37 +338,72 @@ theorem ring_lattice_spec (n d k l : Nat) :
     exact ⟨by simp; omega, ring_edge_nodup n d k l node j hn hj hadm⟩
 
 /-- `sunflower(l, c, m)`, `m ≥ c` (with the termination fix): `l` petals, each containing the core `range c`, each with
-    `m` members below `c + l·(m-c)` -/
+    exactly `m` distinct members below `c + l·(m-c)`; two different petals meet only in the core -/
 theorem sunflower_spec (l c m : Nat) (hm : c ≤ m) :
     (sunflower l c m).length = l ∧
-    ∀ e ∈ sunflower l c m, e.length = m ∧ (∀ x < c, x ∈ e) ∧ ∀ x ∈ e, x < c + l * (m - c) := by
-  refine ⟨by simp [sunflower], ?_⟩
-  intro e he
-  rw [mem_sunflower] at he
-  obtain ⟨t, ht, rfl⟩ := he
-  refine ⟨by simp; omega, fun x hx => by simp [hx], ?_⟩
-  intro x hx
-  rw [List.mem_append, List.mem_range, List.mem_map] at hx
-  rcases hx with hx | ⟨i, hi, rfl⟩
-  · have : 0 ≤ l * (m - c) := Nat.zero_le _
-    omega
-  · rw [List.mem_range] at hi
-    have : (t + 1) * (m - c) ≤ l * (m - c) := Nat.mul_le_mul_right _ ht
-    rw [Nat.succ_mul] at this
-    omega
+    (∀ e ∈ sunflower l c m, e.length = m ∧ e.Nodup ∧ (∀ x < c, x ∈ e) ∧ ∀ x ∈ e, x < c + l * (m - c)) ∧
+    (∀ e₁ ∈ sunflower l c m, ∀ e₂ ∈ sunflower l c m, e₁ ≠ e₂ → ∀ x, x ∈ e₁ → x ∈ e₂ → x < c) := by
+  refine ⟨by simp [sunflower], ?_, ?_⟩
+  · intro e he
+    rw [mem_sunflower] at he
+    obtain ⟨t, ht, rfl⟩ := he
+    refine ⟨by simp; omega, ?_, fun x hx => by simp [hx], ?_⟩
+    · rw [List.nodup_append]
+      refine ⟨List.nodup_range, ?_, ?_⟩
+      · exact List.Nodup.map_on (fun x _ y _ h => by omega) List.nodup_range
+      · intro a ha b hb hab
+        rw [List.mem_range] at ha
+        rw [List.mem_map] at hb
+        obtain ⟨i, -, rfl⟩ := hb
+        omega
+    · intro x hx
+      rw [List.mem_append, List.mem_range, List.mem_map] at hx
+      rcases hx with hx | ⟨i, hi, rfl⟩
+      · have : 0 ≤ l * (m - c) := Nat.zero_le _
+        omega
+      · rw [List.mem_range] at hi
+        have : (t + 1) * (m - c) ≤ l * (m - c) := Nat.mul_le_mul_right _ ht
+        rw [Nat.succ_mul] at this
+        omega
+  · intro e₁ h₁ e₂ h₂ hne x hx₁ hx₂
+    rw [mem_sunflower] at h₁ h₂
+    obtain ⟨t₁, -, rfl⟩ := h₁
+    obtain ⟨t₂, -, rfl⟩ := h₂
+    have htt : t₁ ≠ t₂ := fun h => hne (by rw [h])
+    rw [List.mem_append, List.mem_range, List.mem_map] at hx₁ hx₂
+    rcases hx₁ with hx₁ | ⟨i₁, hi₁, rfl⟩
+    · exact hx₁
+    · rcases hx₂ with hx₂ | ⟨i₂, hi₂, h⟩
+      · exact hx₂
+      · exfalso
+        rw [List.mem_range] at hi₁ hi₂
+        rcases Nat.lt_or_gt_of_ne htt with hlt | hlt
+        · have := Nat.mul_le_mul_right (m - c) (Nat.succ_le_of_lt hlt)
+          rw [Nat.succ_mul] at this
+          omega
+        · have := Nat.mul_le_mul_right (m - c) (Nat.succ_le_of_lt hlt)
+          rw [Nat.succ_mul] at this
+          omega
 
-/-- `star_clique`: every edge lies within `range (n_star + n_clique)` and has between 2 and `d_max + 1` (or 2) nodes;
-    partial: exact edge multiset is checked by the correspondence only -/
-theorem star_clique_spec_partial (nStar nClique dMax : Nat) (hs : 1 ≤ nStar) (hc : 1 ≤ nClique) :
-    ∀ e ∈ starClique nStar nClique dMax, (∀ x ∈ e, x < nStar + nClique) ∧ 2 ≤ e.length ∧ e.length ≤ max 2 (dMax + 1) := by
-  intro e he
-  simp only [starClique, List.mem_append, List.mem_map, List.mem_range, List.mem_singleton] at he
-  rcases he with (⟨i, hi, rfl⟩ | rfl) | he
-  · exact ⟨by intro x hx; simp at hx; omega, by simp, by simp⟩
-  · exact ⟨by intro x hx; simp at hx; omega, by simp, by simp⟩
-  · rw [mem_cliqueEdges] at he
-    obtain ⟨h1, -, h3⟩ := he
-    exact ⟨fun x hx => (h3 x hx).2, by omega, by omega⟩
+/-- `star_clique(n_star, n_clique, d_max)`: the edges are exactly the star legs `{0, i}`, the bridge `{0, n_star}` and
+    every subset of the clique nodes with 2 … d_max+1 members — each once -/
+theorem star_clique_spec (nStar nClique dMax : Nat) (hs : 1 ≤ nStar) :
+    (∀ e, e ∈ starClique nStar nClique dMax ↔
+      (∃ i, 1 ≤ i ∧ i < nStar ∧ e = [0, i]) ∨ e = [0, nStar] ∨
+      ((2 ≤ e.length ∧ e.length ≤ dMax + 1) ∧ e.Pairwise (· < ·) ∧ ∀ x ∈ e, nStar ≤ x ∧ x < nStar + nClique)) ∧
+    (starClique nStar nClique dMax).Nodup := by
+  refine ⟨?_, nodup_starClique nStar nClique dMax hs⟩
+  intro e
+  simp only [starClique, List.mem_append, List.mem_map, List.mem_range, List.mem_singleton, mem_cliqueEdges]
+  constructor
+  · rintro ((⟨i, hi, rfl⟩ | rfl) | ⟨h1, h2⟩)
+    · exact Or.inl ⟨i + 1, by omega, by omega, rfl⟩
+    · exact Or.inr (Or.inl rfl)
+    · exact Or.inr (Or.inr ⟨by omega, h2⟩)
+  · rintro (⟨i, h1, h2, rfl⟩ | rfl | ⟨h1, h2⟩)
+    · exact Or.inl (Or.inl ⟨i - 1, by omega, by congr; omega⟩)
+    · exact Or.inl (Or.inr rfl)
+    · exact Or.inr ⟨by omega, h2⟩
 
 /-! ### non-vacuity -/
 
@@ -349,7 +422,10 @@ example : configModel [(1, 1), (2, 2), (3, 3), (4, 3)] 3 [] [[0, 1, 3], [0, 1, 2
 example : configModel [(0, 2), (1, 1)] 2 [1] [[3, 0], [1, 0]] = some [[1, 0], [1, 0]] := by decide
 example : closure [[0, 1, 2]] = [[1, 2], [0, 2], [0, 1], [0, 1, 2]] := by decide
 example : flagComplex 4 (fun a b => (a, b) ≠ (2, 3)) 2 = [[0, 1], [0, 2], [0, 3], [1, 2], [1, 3], [0, 1, 2], [0, 1, 3]] := by decide
+example : flagPromoted 4 (fun _ _ => true) 2 [[0, 1, 3]] =
+    some [[0, 1], [0, 2], [0, 3], [1, 2], [1, 3], [2, 3], [0, 1, 3]] := by decide
 example : ringLattice 6 3 2 1 = [[0, 2, 3], [1, 3, 4], [2, 4, 5], [3, 5, 0], [4, 0, 1], [5, 1, 2]] := by decide
 example : sunflower 2 2 2 = [[0, 1], [0, 1]] := by decide
+example : starClique 2 3 1 = [[0, 1], [0, 2], [2, 3], [2, 4], [3, 4]] := by decide
 
 end Xgi.C16
